@@ -77,6 +77,7 @@ func concurrentBatch(c *restful.Container, entry string, reqs []rt.Req, g int, c
 // c01: whenever a route function runs, the request is one its declaration admits.
 func c01(ctx *core.Ctx) {
 	quietLogs()
+	defer restful.DefaultRequestContentType("")
 	ctx.Rule("seeded tables (1-3 WebServices, every 4th container had its router switched back and forth first; variable/regex roots, literal/{v}/{v:re}/{v}suffix/{v:*}/:verb segments, Consumes/Produces, If-conditions) x requests (template-derived hits, single-mutation near misses, adversarial); both routers; Dispatch and ServeHTTP; every 3rd table also replays its requests from 8 concurrent goroutines. Oracle runs on every route-function invocation. Non-trivial = an invocation or a refused near miss; distinct by (router, entry, template kind-shape, request class, outcome class).")
 	ctx.Assume("reference matcher is three-valued; partial regex matches, empty segments and zero-length tail wildcards are not judged (DESIGN §4)",
 		"requests are hand-built http.Requests with consistent ContentLength/Content-Length")
@@ -109,6 +110,14 @@ func c01(ctx *core.Ctx) {
 		bo.Switched = ti%8 == 2 || ti%8 == 5 // both routers get their turn (the router is chosen by parity)
 		bo.Default = ti == 0                 // once per process: the package-level DefaultContainer through restful.Add / restful.Filter
 		c := rt.Build(t, bo)
+		if ti%16 == 6 || ti%16 == 11 {
+			// the package-level default for READING entities without Content-Type is set (by this or another container in
+			// the process); which route admits a request without Content-Type does not depend on it
+			restful.DefaultRequestContentType([]string{restful.MIME_JSON, restful.MIME_XML}[(ti/16)%2])
+			ctx.Count("tables_with_default_request_content_type", 1)
+		} else {
+			restful.DefaultRequestContentType("")
+		}
 		rr := ctx.Rand(ti, "req")
 		var reqs []rt.Req
 		for qi := 0; qi < perTable; qi++ {
@@ -281,6 +290,7 @@ func checkC01(ctx *core.Ctx, ti int, t *rt.Table, router, entry string, req *rt.
 // c02: totality and exact error classes.
 func c02(ctx *core.Ctx) {
 	quietLogs()
+	defer restful.DefaultRequestContentType("")
 	ctx.Rule("same generators as C01 plus an adversarial path/header pool and extension methods (LOCK, UNLOCK, FIND, PROPFIND, OPTIONS routes). Each request is dispatched with trace logging off and on; every 3rd table replays its requests from 8 concurrent goroutines. Oracle: no panic, at most one invocation, outcome class (invoke/404/405+Allow/415/406) is one admitted by the reference staged elimination (best root under literal>variable and longer>prefix, weak mode when roots are incomparable or a variable root competes under RouterJSR311). Non-trivial = a judged request; distinct by (router, request class, reference stage, outcome class).")
 	ctx.Assume("cases whose classification depends on an unspecified match are counted in unspecified_skipped and get a totality verdict only",
 		"ServeHTTP is judged for totality only: net/http's mux rewrites unclean paths (DESIGN §4.9)")
@@ -382,6 +392,12 @@ func c02(ctx *core.Ctx) {
 				}
 			}
 			ctx.Count("tables_edited_with_RemoveRoute", 1)
+		}
+		if ti%16 == 6 || ti%16 == 11 {
+			restful.DefaultRequestContentType([]string{restful.MIME_JSON, restful.MIME_XML}[(ti/16)%2])
+			ctx.Count("tables_with_default_request_content_type", 1)
+		} else {
+			restful.DefaultRequestContentType("")
 		}
 		rr := ctx.Rand(ti, "req")
 		var reqs []rt.Req
